@@ -25,6 +25,8 @@ pub enum Media {
   Dts,
   Json,
   Unknown,
+  /// WebAssembly module whose import section names its dependencies
+  Wasm,
 }
 
 impl Media {
@@ -38,6 +40,7 @@ impl Media {
     Media::Dts,
     Media::Json,
     Media::Unknown,
+    Media::Wasm,
   ];
   pub fn ext(&self) -> &'static str {
     match self {
@@ -50,6 +53,7 @@ impl Media {
       Media::Dts => "d.ts",
       Media::Json => "json",
       Media::Unknown => "txt",
+      Media::Wasm => "wasm",
     }
   }
   /// content-type used when the media type is conveyed by header on an
@@ -62,6 +66,7 @@ impl Media {
       Media::Tsx => Some("text/tsx"),
       Media::Json => Some("application/json"),
       Media::Unknown => Some("image/png"),
+      Media::Wasm => Some("application/wasm"),
       _ => None,
     }
   }
@@ -72,7 +77,11 @@ impl Media {
     matches!(self, Media::Dts)
   }
   pub fn is_js_like(&self) -> bool {
-    !matches!(self, Media::Json | Media::Unknown)
+    !matches!(self, Media::Json | Media::Unknown | Media::Wasm)
+  }
+  /// modules that declare dependencies
+  pub fn has_items(&self) -> bool {
+    self.is_js_like() || *self == Media::Wasm
   }
   pub fn is_plain_js(&self) -> bool {
     matches!(self, Media::Js | Media::Mjs | Media::Jsx)
@@ -91,8 +100,44 @@ impl Media {
       Media::Dts => "Dts",
       Media::Json => "Json",
       Media::Unknown => "Unknown",
+      Media::Wasm => "Wasm",
     }
   }
+}
+
+/// A minimal WebAssembly binary: one function type and one function import
+/// per dependency (module name = specifier text).
+pub fn render_wasm(imports: &[String]) -> Vec<u8> {
+  fn leb(mut n: usize, out: &mut Vec<u8>) {
+    loop {
+      let b = (n & 0x7f) as u8;
+      n >>= 7;
+      if n == 0 {
+        out.push(b);
+        break;
+      }
+      out.push(b | 0x80);
+    }
+  }
+  let mut out = vec![0x00, 0x61, 0x73, 0x6d, 0x01, 0x00, 0x00, 0x00];
+  // type section: one `() -> ()`
+  out.extend([0x01, 0x04, 0x01, 0x60, 0x00, 0x00]);
+  if !imports.is_empty() {
+    let mut body = vec![];
+    leb(imports.len(), &mut body);
+    for (i, m) in imports.iter().enumerate() {
+      leb(m.len(), &mut body);
+      body.extend(m.as_bytes());
+      let field = format!("f{}", i);
+      leb(field.len(), &mut body);
+      body.extend(field.as_bytes());
+      body.extend([0x00, 0x00]); // func, type 0
+    }
+    out.push(0x02);
+    leb(body.len(), &mut out);
+    out.extend(body);
+  }
+  out
 }
 
 #[derive(Clone, Copy, Debug, PartialEq, Eq, Hash, PartialOrd, Ord)]
@@ -297,7 +342,11 @@ impl GWorld {
       if let Some(t) = &m.x_ts_types {
         headers.push(("x-typescript-types".to_string(), t.clone()));
       }
-      let content = render_module(m).into_bytes();
+      let content = if m.media == Media::Wasm {
+        render_wasm(&m.items.iter().map(|i| i.text.clone()).collect::<Vec<_>>())
+      } else {
+        render_module(m).into_bytes()
+      };
       let resp = match &m.serve {
         Serve::Module => Resp::Module {
           headers,
@@ -534,6 +583,7 @@ pub fn model_declarations(
 #[derive(Clone, Debug, PartialEq, Eq)]
 pub enum MSlot {
   Js { deps: Vec<(String, MDep)>, types_dep: Option<(String, MRes)> },
+  Wasm { deps: Vec<(String, MDep)> },
   Json,
   External,
   Err(&'static str),
@@ -543,6 +593,7 @@ impl MSlot {
   pub fn class(&self) -> String {
     match self {
       MSlot::Js { .. } => "js".into(),
+      MSlot::Wasm { .. } => "wasm".into(),
       MSlot::Json => "json".into(),
       MSlot::External => "external".into(),
       MSlot::Err(k) => format!("err:{}", k),
@@ -791,9 +842,13 @@ pub fn model_build(w: &GWorld, o: &MOptions) -> MGraph {
             } else {
               decl.types_dep = None;
             }
-            MSlot::Js {
-              deps: decl.deps,
-              types_dep: decl.types_dep,
+            if media == Media::Wasm {
+              MSlot::Wasm { deps: decl.deps }
+            } else {
+              MSlot::Js {
+                deps: decl.deps,
+                types_dep: decl.types_dep,
+              }
             }
           };
           g.slots.insert(final_spec, slot);
@@ -960,7 +1015,8 @@ fn gen_world_once(rng: &mut Rng, cfg: &GenCfg) -> GWorld {
   let n = rng.range(2, cfg.max_modules.max(2));
   let mut modules: Vec<GModule> = vec![];
   for i in 0..n {
-    let media = match rng.below(16) {
+    let media = match rng.below(17) {
+      16 => Media::Wasm,
       0..=4 => Media::Ts,
       5..=7 => Media::Js,
       8 => Media::Mjs,
@@ -1082,7 +1138,7 @@ fn gen_world_once(rng: &mut Rng, cfg: &GenCfg) -> GWorld {
   };
   let n_mod = modules.len();
   for i in 0..n_mod {
-    if !modules[i].media.is_js_like() {
+    if !modules[i].media.has_items() {
       continue;
     }
     let media = modules[i].media;
@@ -1127,7 +1183,20 @@ fn gen_world_once(rng: &mut Rng, cfg: &GenCfg) -> GWorld {
           forms.push(Form::JsDoc);
         }
       }
+      if media == Media::Wasm {
+        // the import section only has plain static imports of modules
+        if tmedia == Media::Json || text == "bare-specifier" {
+          continue;
+        }
+        forms = vec![Form::Import];
+      }
       let form = *rng.pick(&forms);
+      if media == Media::Wasm {
+        if !items.iter().any(|it: &Item| it.text == text) {
+          items.push(Item { form, text, deno_types: None });
+        }
+        continue;
+      }
       // keep one attribute per specifier text within a module: if the text was
       // already used with another attribute class, skip
       if items.iter().any(|it: &Item| {
@@ -1180,7 +1249,8 @@ fn gen_world_once(rng: &mut Rng, cfg: &GenCfg) -> GWorld {
         }
       }
     }
-    if remote && !media.is_typed() && rng.chance(1, 8) {
+    // the header is honoured whatever the module's own media type is
+    if remote && media != Media::Wasm && (if media.is_typed() { rng.chance(1, 16) } else { rng.chance(1, 8) }) {
       let (u2, m2, _) = rng.pick(&all_targets).clone();
       if m2 != Media::Json {
         modules[i].x_ts_types = Some(text_for(rng, &from, &u2));
